@@ -11,7 +11,9 @@ type entry struct {
 	text  string   // full command text
 	deps  map[string]bool
 	axiom bool
+	isDef bool
 	keys  []string // for axioms: include when any key is in the cone (empty = always)
+	closed map[string]bool // memoised transitive symbols through definitions
 }
 
 // Ctx accumulates declarations, definitions and axioms for one verification
@@ -118,7 +120,7 @@ func (c *Ctx) Let(prefix string, t Term) Term {
 		return t
 	}
 	name := c.FreshName(prefix)
-	c.add(&entry{names: []string{name}, text: fmt.Sprintf("(define-fun %s () %s %s)", name, t.Sort, t.S)})
+	c.add(&entry{names: []string{name}, isDef: true, text: fmt.Sprintf("(define-fun %s () %s %s)", name, t.Sort, t.S)})
 	return Term{name, t.Sort}
 }
 
@@ -165,10 +167,41 @@ func (c *Ctx) Raw(names []string, text string) {
 	c.add(&entry{names: names, text: text})
 }
 
+// closure returns the symbols of a text expanded through define-fun definitions.
+func (c *Ctx) closure(syms map[string]bool) map[string]bool {
+	out := map[string]bool{}
+	var visit func(s string)
+	visit = func(s string) {
+		if out[s] {
+			return
+		}
+		out[s] = true
+		if e := c.byName[s]; e != nil && e.isDef {
+			if e.closed == nil {
+				e.closed = map[string]bool{}
+				tmp := map[string]bool{}
+				for d := range e.deps {
+					tmp[d] = true
+				}
+				for d := range c.closure(tmp) {
+					e.closed[d] = true
+				}
+			}
+			for d := range e.closed {
+				out[d] = true
+			}
+		}
+	}
+	for s := range syms {
+		visit(s)
+	}
+	return out
+}
+
 // Query builds the SMT-LIB text asking whether assumptions ∧ ¬goal is
 // satisfiable. getValues lists terms whose model values are requested.
-func (c *Ctx) Query(assumptions []Term, goal Term, getValues []string) string {
-	return c.build(assumptions, Not(goal), getValues)
+func (c *Ctx) Query(assumptions []Term, pc Term, goal Term, getValues []string) string {
+	return c.build(assumptions, And(pc, Not(goal)), getValues)
 }
 
 // SatQuery builds a query asking whether assumptions ∧ extra is satisfiable.
@@ -184,8 +217,9 @@ func (c *Ctx) build(assumptions []Term, last Term, getValues []string) string {
 	}
 	asmSyms := make([]map[string]bool, len(assumptions))
 	for i, a := range assumptions {
-		asmSyms[i] = map[string]bool{}
-		Symbols(a.S, asmSyms[i])
+		tmp := map[string]bool{}
+		Symbols(a.S, tmp)
+		asmSyms[i] = c.closure(tmp)
 	}
 	inclA := make([]bool, len(assumptions))
 	inclE := make([]bool, len(c.entries))
